@@ -80,6 +80,18 @@ def pt(f, st):
     return p
 
 
+def pt_or_term(f, st):
+    """program point of a statement; for break/continue/goto (block terminators without a CFG element) the end of the block they terminate"""
+    p = pt(f, st)
+    if p is not None:
+        return p
+    sid = st['i'] if isinstance(st, dict) else st
+    for b in f.cfg.blocks.values():
+        if b.term == sid:
+            return (b.id, len(b.el))
+    return None
+
+
 def pts(f, sts):
     out = []
     for s in sts:
